@@ -147,6 +147,7 @@ func (w *World) inject(from int, raw *interfaces.ConsensusRawMessage, tag string
 		w.enqueue(&Flight{from: from, to: to, raw: raw, tag: tag})
 	}
 	w.ev("inject %s from n%d to %v : %s #%s", tag, from, targets, Decode(raw).Short(), shortHash(raw.Content))
+	w.probeProofViews(Decode(raw), "byzantine")
 	w.stats.Fault(tag)
 	w.use(tag)
 	return len(targets)
